@@ -65,8 +65,7 @@ def configs(tier):
         add(3, 1, 3, 6, True, False, 1, 1)
         # d = 3 with lmax - lmin = 2: two steps in two different dimensions (component grids at the minimum level in one dimension and
         # above it in the others) for the default version and 7 / 8, plus a graded history
-        for version in (6, 7, 8):
-            add(3, 1, 3, version, False, True, 2, 1)
+        # (the complete depth-2 layers of this start take 150-190 s each: thorough tier; quick keeps the graded history)
         add(3, 1, 3, 6, False, True, 3, 1, towards=T3)
         add(3, 2, 3, 6, False, True, 1, 1)        # d = 3 together with lmin = 2
         # rarely used public constructor options: no adaptive extension of the scheme, Chebyshev-distributed initial points (unit
@@ -88,6 +87,9 @@ def configs(tier):
         for bnd in (True, False):
             add(2, 1, 2, 6, True, bnd, 4, 1, towards=TF, **FAR)
     else:
+        for version in (6, 7, 8):
+            add(3, 1, 3, version, False, True, 2, 1)
+        add(3, 1, 3, 6, False, True, 3, 1, towards=T3)
         for version in (6, 2):
             for bnd in (True, False):
                 add(2, 1, 2, version, True, bnd, 6, 1, towards=TF, **FAR)
